@@ -38,6 +38,8 @@ PROPS = {
                 partial=["segmentation independence: by correspondence (every stream read under several chunkings vs the flat model), not by a Lean refinement theorem"]),
     "C06": dict(lean=["Mav.Props.C06"], groups=[("C06", sizes(120, 4000))],
                 trusted=["SHA-256 treated as an arbitrary function H in theorems; 'never delivered' rests on the 48-bit MAC assumption"]),
+    "C08": dict(lean=["Mav.Props.C08"], groups=[("C08", sizes(150, 4000))],
+                trusted=["forwarding chain = composition of the reader and writer models (Driver hopChain); Node.FixFrame model in Mav/Model/Writer.lean"]),
     "C09": dict(lean=["Mav.Props.C09"], groups=[("C09", sizes(100, 600))],
                 trusted=["streamwriter model hand-written (Mav/Model/Writer.lean), tied by TIE-D write histories and source pins"]),
     "C07": dict(lean=["Mav.Props.C07"], groups=[("C07", sizes(150, 5000))],
